@@ -66,6 +66,8 @@ func verifC24FromStreamMP3(rate int, unitPTS int64, frames int) (spf int, ms []i
 		return 0, nil, err
 	}
 	defer ln.Close()
+	// nothing here may wait for ever: the client goroutine can fail before it connects
+	ln.(*net.TCPListener).SetDeadline(time.Now().Add(5 * time.Second)) //nolint:errcheck
 
 	received := make(chan int64, 64)
 	clientErr := make(chan error, 1)
@@ -106,6 +108,7 @@ func verifC24FromStreamMP3(rate int, unitPTS int64, frames int) (spf int, ms []i
 		return 0, nil, err
 	}
 	defer nconn.Close()
+	nconn.SetDeadline(time.Now().Add(20 * time.Second)) //nolint:errcheck
 	conn := &gortmplib.ServerConn{RW: nconn}
 	if err = conn.Initialize(); err != nil {
 		return 0, nil, err
@@ -133,7 +136,7 @@ func verifC24FromStreamMP3(rate int, unitPTS int64, frames int) (spf int, ms []i
 	sub.WriteUnit(medias[0], medias[0].Formats[0], &unit.Unit{PTS: unitPTS, Payload: payload})
 
 	// the frames of the unit under test are the last ones: collect until nothing arrives for a while
-	timeout := time.After(3 * time.Second)
+	timeout := time.After(8 * time.Second)
 	for {
 		select {
 		case v := <-received:
